@@ -17,6 +17,7 @@ package lispsim
 import (
 	"context"
 	"os"
+	"runtime"
 	"strconv"
 	"strings"
 	"time"
@@ -36,6 +37,7 @@ const c07Setup = `(do
   (def lp (fn [n] (lp (+ n 1))))
   (def nt (fn [d] (if (= d 0) 0 (+ 1 (nt (- d 1))))))
   (def lp-nt (fn [n] (do (nt 30) (lp-nt (+ n 1)))))
+  (def dive (fn [n] (+ 1 (dive (+ n 1)))))
   (defmacro mm (fn [] '(mm)))
   (def lp-cond (fn [n] (cond (< n 0) :never true (lp-cond (+ n 1)))))
   (def lp-and (fn [n] (and true (or false (lp-and (+ n 1))))))
@@ -196,6 +198,16 @@ type c07World struct {
 	bound    int64
 	fired    bool
 	retTime  time.Duration
+	// heap bytes allocated by the process (cumulative) at T* and at EVAL's return, and the steps taken before T*
+	allocAtStar, allocAtRet uint64
+	stepsAtStar             int64
+}
+
+// totalAlloc: cumulative heap bytes allocated by this process (exact: ReadMemStats flushes the per-P caches).
+func totalAlloc() uint64 {
+	var m runtime.MemStats
+	runtime.ReadMemStats(&m)
+	return m.TotalAlloc
 }
 
 // OnStep: fires the step-mode cancellation, notices T*, counts steps after it.
@@ -210,6 +222,8 @@ func (w *c07World) OnStep(s *Sim, t *Task, ctx context.Context, ast, env interfa
 		if !w.tStarSet {
 			w.tStarSet = true
 			w.tStar = s.Now()
+			w.stepsAtStar = s.TotalSteps
+			w.allocAtStar = totalAlloc()
 		}
 		w.afterAll++
 		if t != w.caller && w.afterAll-w.after > 200*w.bound {
@@ -258,6 +272,9 @@ func (w *c07World) preludeSettled() bool {
 //go:norace
 func (w *c07World) noteReturn() {
 	w.retTime = w.s.Now()
+	if w.tStarSet {
+		w.allocAtRet = totalAlloc()
+	}
 	if !w.tStarSet && w.ctx.Err() != nil {
 		w.tStarSet = true
 		w.tStar = w.retTime
@@ -271,11 +288,18 @@ func (c07) Run(tp *Tape, opt RunOpt) *RunOut {
 	handlerProbe := false
 	finallyProbe := ""
 	burst := false
-	topW := []int{120, 40, 20, 20, 2}
+	dive := false
+	topW := []int{120, 40, 20, 20, 2, 3}
 	if os.Getenv("LISPSIM_C07_BURST") != "" {
-		topW = []int{0, 0, 0, 0, 1} // development aid: only the burst shape
+		topW = []int{0, 0, 0, 0, 1, 0} // development aid: only the burst shape
 	}
 	switch tp.Weighted(LaneWork, topW) {
+	case 5:
+		// a non-tail recursion that is thousands of frames deep when the context ends: the error has that many
+		// frames to unwind through
+		dive = true
+		g.kinds = append(g.kinds, "deep-nontail-dive")
+		src = []string{"(dive 0)", "(do (nt 20) (dive 0))", "(let [a 1] (+ a (dive 0)))", "(first (map (fn [x] (dive x)) [1]))"}[tp.Draw(LaneWork, 4)]
 	case 4:
 		// very many futures at once, each starting a future of its own after a short sleep
 		burst = true
@@ -333,6 +357,9 @@ func (c07) Run(tp *Tape, opt RunOpt) *RunOut {
 	if burst && steps < 24000 {
 		// all the futures must have been started before the context ends, or there is no burst
 		steps = 24000 + steps%8000
+	}
+	if dive && steps < 12288 {
+		steps = 12288 + steps%20000
 	}
 	if handlerProbe || finallyProbe != "" {
 		w.mode = "deadline"
@@ -467,6 +494,25 @@ func (c07) Run(tp *Tape, opt RunOpt) *RunOut {
 		}
 		if lag > time.Duration(bound+10)*maxCost {
 			viol("prompt", "time-after-cancel:"+shape, "EVAL returned "+lag.String()+" of simulated time after its context had ended (T*="+w.tStar.String()+")")
+		}
+		// work that costs no evaluation step (copying inside Go code) still shows as allocation: between T* and
+		// EVAL's return a single-threaded run may allocate a fixed amount, plus an allowance per step taken after
+		// T*, plus an allowance per step taken before it (the depth to unwind through is at most that) -- not
+		// more, which is what an unwinding whose cost per frame grows with the depth does
+		if len(s.tasks) == 1 && w.allocAtRet >= w.allocAtStar {
+			used := int64(w.allocAtRet - w.allocAtStar)
+			allow := int64(2<<20) + 2048*(w.after+1) + 256*w.stepsAtStar
+			out.Stats["alloc_after_cancel_judged"]++
+			if dive {
+				out.Stats["probe:deep-dive-unwound-after-cancellation"]++
+			}
+			out.Stats["alloc_after_cancel_bytes"] += used
+			if used > allow/8 {
+				out.Stats["alloc_after_cancel_above_an_eighth_of_allowance"]++
+			}
+			if used > allow {
+				viol("prompt", "allocation-after-cancel:"+shape, "between the end of its context and EVAL's return the calling thread (the only thread of the run) allocated "+strconv.FormatInt(used, 10)+" bytes; allowance "+strconv.FormatInt(allow, 10)+" (2 MiB + 2 KiB per step after T* + 256 B per step before it: "+strconv.FormatInt(w.stepsAtStar, 10)+" steps)")
+			}
 		}
 		if !g.hasTry {
 			if !isErr {
